@@ -64,7 +64,8 @@ type rep interface {
 	TransferTo(raftID uint64) error
 	Dump(keys []string) (map[string]string, error) // key spec "kv:name" ... -> canonical reply token
 	Log() ([]logEnt, error)
-	Block(ids []uint64) error // drop the raft messages arriving from these replicas (empty = heal)
+	Block(ids []uint64) error      // drop the raft messages arriving from these replicas (empty = heal)
+	Gate() *server.VerifRaftFilter // message gate of an in-process replica (nil for a child process)
 }
 
 // ---------------------------------------------------------------- local replica
@@ -236,6 +237,10 @@ func (r *replica) OpenNS() error {
 	}
 	return n.Start(false)
 }
+
+func (r *replica) Gate() *server.VerifRaftFilter { return r.filter }
+
+func (c *childRep) Gate() *server.VerifRaftFilter { return nil }
 
 func (r *replica) Block(ids []uint64) error {
 	r.filter.SetBlocked(ids)
